@@ -1279,6 +1279,13 @@ def gen_conn_spec(rng):
     for sp in (True, False, True):
         rounds.append(dict(kind='conflict', savepoint=sp, on=rng.randrange(2), size=rng.choice([1, 300, 9000])))
     rounds.append(dict(kind='meta', savepoint=rng.random() < 0.5, size=rng.choice([1, 300])))
+    # db.undo() joined to a transaction that does not finish: the undo is impossible (UndoError in the
+    # commit phase), another participant fails before / after the undo manager voted, or plain abort
+    rounds.append(dict(kind='undo', how='impossible', size=1))
+    for when in ('begin', 'commit', 'vote'):
+        rounds.append(dict(kind='undo', how='foreign', when=when, first=rng.random() < 0.5, size=1))
+    rounds.append(dict(kind='undo', how='foreign', when='vote', first=False, size=1))
+    rounds.append(dict(kind='undo', how='early', size=1))
     rng.shuffle(rounds)
     return dict(kind='conn', nobj=rng.choice([2, 3]), rounds=rounds)
 
@@ -1290,11 +1297,13 @@ class ForeignFailure(RuntimeError):
 class FailingRM:
     """a second resource manager of the transaction that fails at the given phase"""
 
-    def __init__(self, when):
+    def __init__(self, when, first=False):
         self.when = when
+        self.first = first
 
     def sortKey(self):
-        return '~~~~zzzz'            # sorts (and so votes) after the connection
+        # '~…' sorts (and so begins / votes) after the connection or the undo manager, ' …' before it
+        return ' !!first' if self.first else '~~~~zzzz'
 
     def abort(self, t):
         pass
@@ -1368,10 +1377,26 @@ def conn_case(ck, root, spec):
             case = dict(kind='conn', nobj=spec['nobj'], rounds=spec['rounds'][:n + 1])
             label = rd['kind'] + ('-' + rd['when'] if rd['kind'] == 'foreign' else '') + (
                 '-savepoint' if rd.get('savepoint') else '')
+            if rd['kind'] == 'undo':
+                label = 'undo-' + rd['how'] + ('-' + rd['when'] + ('-first' if rd.get('first') else '-last')
+                                               if rd['how'] == 'foreign' else '')
             ck.count('conn:' + label)
             try:
                 tm1.begin()
-                objs = [r1[k] for k in keys]
+                tmc = tm1                    # the transaction manager whose commit fails
+                objs = [r1[k] for k in keys] if rd['kind'] != 'undo' else []
+                if rd['kind'] == 'undo':
+                    # no connection takes part (it would compete with the undo manager for the same
+                    # commit lock): the undo manager, alone or with a failing second participant
+                    tmc = transaction.TransactionManager()
+                    log = db.undoLog(0, 6)
+                    if rd['how'] == 'impossible' and len(log) < 2:
+                        continue
+                    # every later transaction rewrote all objects, so only the newest one can be undone
+                    uid = log[1]['id'] if rd['how'] == 'impossible' else log[0]['id']
+                    db.undo(uid, tmc.get())
+                    if rd['how'] == 'foreign':
+                        tmc.get().join(FailingRM(rd['when'], rd.get('first', False)))
                 for i, o in enumerate(objs):
                     o['v'] = 'r%d-%d-' % (n, i) + 'y' * rd['size']
                     if rd.get('savepoint') and i == 0:
@@ -1389,11 +1414,13 @@ def conn_case(ck, root, spec):
                 before = image()
                 n0 = len(rec.events)
                 try:
-                    tm1.commit()
+                    if rd.get('how') == 'early':
+                        raise ForeignFailure('aborted before the commit began')
+                    tmc.commit()
                     raised = None
                 except Exception as e:          # the failure under test
                     raised = e
-                tm1.abort()
+                tmc.abort()
                 evs = [e for e in rec.events[n0:] if e[0] in ('write', 'trunc') and e[1] == 'Data.fs']
                 kinds = ''.join('w' if e[0] == 'write' else 't' for e in evs)
                 ck.count('conn:data-trace:' + ('write+trunc' if 't' in kinds else (kinds and 'write' or 'none')))
